@@ -34,9 +34,19 @@ def load_map():
         return json.load(f)
 
 
+# units without a harness of their own are exercised by the harness of the unit that calls them
+ALIAS = {'VO1': 'V1', 'VO2': 'V2', 'VO3': 'V3', 'VO4': 'V4', 'V7a': 'V7m', 'V8g': 'V8', 'V8d': 'V8', 'V8v': 'V8',
+         'B6t': 'B6', 'B7e': 'B7', 'V1c': 'V1', 'V2c': 'V2', 'V3c': 'V3', 'V4c': 'V4', 'V6c': 'V6', 'V6d': 'V6',
+         'V6n': 'V6', 'V6new': 'V6', 'P2s': 'P2', 'P2n': 'P2', 'P3n': 'P3', 'P4': 'P1', 'P4e': 'P1', 'P4n': 'P1',
+         'T1': 'T3', 'T2': 'T3', 'N2': 'N1', 'N3': 'N1', 'N4': 'N1', 'N5': 'N1', 'L2': 'L1', 'PCa': 'PCi',
+         'PCn': 'PCi', 'C16.table': 'B6', 'X.is_added': 'Db', 'X.is_removed': 'Db', 'X.is_context': 'Db',
+         'X.lines': 'Db', 'X.hunks': 'Db', 'X.is_removed_file': 'Da', 'X.path': 'Da', 'Vnew': 'V4', 'VRnew': 'V4',
+         'Pnew': 'V5', 'Bcontent': 'V4'}
+
+
 def harness_for(unit, m):
     """The harness entry for a unit id; sub-units fall back to their parent (Db.fold -> Db)."""
-    u = unit
+    u = ALIAS.get(unit, unit)
     while u:
         if u in m:
             return u, m[u]
